@@ -53,13 +53,14 @@ def check(tier, seed):
                 continue
             filt = G.rand_filter(rng, segs)
             q_exp, n_exp = G.expected_c02(segs, filt)
-            impl = G.impl_ubx(filt, [('P', s)])
+            pre_ops = rng.choice([[], [], [('R',)], [('P', b'\xb5\x62\x06'), ('R',)], [('E',), ('R',)]])     # a history before the stream
+            impl = G.impl_ubx(filt, pre_ops + [('P', s)])
             toks = impl.split('q=[')[1].split(']')[0].split() if not impl.startswith('!') else ['!']
-            desc = {'stream_hex': C.hexs(s), 'filter': filt, 'kind': 'marker-per-bad-frame', 'chunking': 'whole'}
+            desc = {'stream_hex': C.hexs(s), 'filter': filt, 'kind': 'marker-per-bad-frame', 'chunking': 'whole', 'before': G.ops_tokens(pre_ops)}
             if toks != q_exp:
                 res.violation('C03: a checksum-failed frame did not yield exactly one error marker (or was delivered as data)',
                               {'property': 'C03', 'input': desc, 'expected': ' '.join(q_exp)[:1500], 'implementation_says': impl[:1500]}, 'c03-marker|' + C.hexs(s)[:80])
-            cases.append(Case('ubx-parser-markers', G.ubx_cmd(filt, [('P', s)]), impl, desc, kind='markers'))
+            cases.append(Case('ubx-parser-markers', G.ubx_cmd(filt, pre_ops + [('P', s)]), impl, desc, kind='markers'))
         # the length gate and the delivery of small frames hold for EVERY class/id (no class/id is special): all 65536 pairs
         # on the implementation against the unique expected answer; a sample of them also against the model
         sweep = [(c, i) for c in range(256) for i in range(256)]
@@ -93,6 +94,20 @@ def check(tier, seed):
                 res.violation('C03: a frame whose class/id is not in the filter in force was delivered (or one that is was not) after the filter was replaced',
                               {'property': 'C03', 'input': desc, 'expected': ' '.join(exp), 'implementation_says': impl[:600]}, 'c03-switch|' + how)
             cases.append(Case('ubx-parser-filter-switch', G.ubx_cmd(None, ops), impl, desc, kind='filter-switch'))
+        # filter membership is membership of the PAIR: class of one entry with id of another must not pass
+        for _ in range(40 if tier == 'quick' else 1500):
+            ents = rng.sample(G.CIDS + [(6, 0), (6, 1), (5, 1), (5, 0), (10, 4), (1, 7)], rng.randrange(2, 5))
+            crosses = sorted(set((a[0], b[1]) for a in ents for b in ents) - set(ents))
+            if not crosses:
+                continue
+            s = b''.join(G.frame(c_, i_, bytes([c_, i_])) for c_, i_ in crosses) + G.frame(ents[0][0], ents[0][1], b'\x01')
+            impl = G.impl_ubx(ents, [('P', s)])
+            toks = impl.split('q=[')[1].split(']')[0].split() if not impl.startswith('!') else ['!']
+            why = G.sound_c03(s, ents, toks)
+            desc = {'stream_hex': C.hexs(s), 'filter': ents, 'kind': 'cross-product-of-filter-entries', 'chunking': 'whole'}
+            if why:
+                res.violation('C03 oracle: ' + why, {'property': 'C03', 'input': desc, 'implementation_says': impl[:1200], 'reason': why}, 'c03-cross')
+            cases.append(Case('ubx-parser-filter-cross', G.ubx_cmd(ents, [('P', s)]), impl, desc, kind='filter-cross'))
         # filter membership must be exact: valid frames whose class/id is NEAR the filter's (shifted, swapped, neighbour ...)
         for c, i in [(0x0a, 4), (5, 1), (5, 0), (6, 0x8b), (0x13, 0x60), (1, 3)] + [(rng.randrange(1, 64), rng.randrange(2, 250)) for _ in range(6 if tier == 'quick' else 200)]:
             near = G.near_cids(c, i)
